@@ -91,3 +91,8 @@ func VerifMergeMatrices(m1, m2 DenseHistory, granularity1, sampling1, granularit
 	return (&BurndownAnalysis{}).mergeMatrices(m1, m2, granularity1, sampling1, granularity2, sampling2,
 		time.Duration(tickSize), c1, c2)
 }
+
+// VerifBurndownMeta returns the unexported scalar fields of a BurndownResult.
+func VerifBurndownMeta(r BurndownResult) (tickSize int64, sampling, granularity int) {
+	return int64(r.tickSize), r.sampling, r.granularity
+}
